@@ -416,7 +416,10 @@ def rule_progress(ctx):
     # a cached scan offset that survives a truncation makes a complete payload invisible: the link stalls for good
     B.check_aux(ctx, "C08.AUX")
     # with the threshold disabled the only way out of the loop for an incomplete message is the break
-    f, paths = B.explore_process(ctx)
+    try:
+        f, paths = B.explore_process(ctx)
+    except B.RolesUnknown:
+        return  # decided on the end-to-end catalogue by check_progress above (incomplete messages with the threshold disabled are in it)
     ok = False
     for pa in paths:
         if B.threshold_none_path(pa) is True:
